@@ -40,6 +40,10 @@ def impl_msg(case):
     t, d, time = case
     fail = None
     try:
+        if t == 'sysex' and d.get('data'):
+            # an equal-but-not-identical message formatted just before (booleans are integers) must not influence this one
+            str(mido.Message('sysex', data=tuple(bool(b) if b in (0, 1) else b for b in d['data'])))
+            str(mido.Message('sysex', data=tuple(d['data'])[:-1] + (True,)))
         m = mido.Message(t, time=time, **d)
         s = str(m)
         back = mido.Message.from_str(s)
@@ -198,6 +202,10 @@ def gen(ck):
                 if rng.random() < 0.3:
                     base += rng.choice(['  # trailing', '#x', ' # note_on'])
                 lines.append(base)
+        if lines and rng.random() < 0.25:
+            # text-file artefacts at the very start of a stream (byte order mark, zero-width characters): not part of any
+            # valid message, hence an error on line 1 like anywhere else
+            lines[0] = rng.choice(['\ufeff', '\ufeff' + lines[0], '\u200b' + lines[0], '\ufeff# comment', '\xef\xbb\xbf' + lines[0]])
         streams.append(lines)
     reprs = []
     for _ in range(n // 3):
